@@ -1,6 +1,7 @@
 package main
 
 import (
+	"os"
 	"sort"
 	"fmt"
 	"go/token"
@@ -310,8 +311,19 @@ func checkC02(c *Ctx, r *Report) {
 					if !ok {
 						return nil
 					}
+					sfxOf := func(v ssa.Value) []string {
+						if sfx, ok := constString(v); ok {
+							return []string{sfx}
+						}
+						if g := tableElementOf(v); g != nil {
+							if tab, ok := globalStringTable(g); ok {
+								return tab
+							}
+						}
+						return nil
+					}
 					if calleeName(call) == "strings.HasSuffix" {
-						if sfx, ok := constString(call.Call.Args[1]); ok {
+						for _, sfx := range sfxOf(call.Call.Args[1]) {
 							out = append(out, sfxTest{sfx, call.Call.Args[0], cx})
 						}
 						return out
@@ -320,7 +332,7 @@ func checkC02(c *Ctx, r *Report) {
 						inner := append(append(dctx{}, cx...), call)
 						eachInstr(g, func(in ssa.Instruction) {
 							if c2, ok := in.(*ssa.Call); ok && calleeName(c2) == "strings.HasSuffix" {
-								if sfx, ok := constString(c2.Call.Args[1]); ok {
+								for _, sfx := range sfxOf(c2.Call.Args[1]) {
 									out = append(out, sfxTest{sfx, c2.Call.Args[0], inner})
 								}
 							}
@@ -331,22 +343,35 @@ func checkC02(c *Ctx, r *Report) {
 				restored := false
 				dotForms := map[string]bool{}
 				derivesFromDeep(op, nil, func(x ssa.Value, cx dctx) bool {
-					phi, ok := x.(*ssa.Phi)
-					if !ok {
+					// the value "<cleaned> + /" and the conditions under which it is the one chosen: the tests that
+					// control a merge it flows into, or that guard a return handing it out of a helper
+					bo, ok := x.(*ssa.BinOp)
+					if !ok || bo.Op != token.ADD {
 						return false
 					}
-					appendsSlash := false
-					for _, e := range phi.Edges {
-						if bo, ok := e.(*ssa.BinOp); ok && bo.Op == token.ADD {
-							if sfx, ok := constString(bo.Y); ok && sfx == "/" {
-								appendsSlash = true
+					if sfx, ok := constString(bo.Y); !ok || sfx != "/" {
+						return false
+					}
+					var leaves []ssa.Value
+					if bo.Referrers() != nil {
+						for _, ref := range *bo.Referrers() {
+							switch y := ref.(type) {
+							case *ssa.Phi:
+								leaves = append(leaves, condLeaves(condOfPhi(y))...)
+							case *ssa.Return:
+								for _, fc := range factsAt(bo.Parent(), y) {
+									leaves = append(leaves, condLeaves(fc.cond)...)
+								}
 							}
 						}
 					}
-					if !appendsSlash {
-						return false
+					if os.Getenv("VERIF_DBG") != "" {
+						fmt.Fprintf(os.Stderr, "DBG slash value %s in %s: %d leaves, ctx=%d\n", bo.Name(), bo.Parent().Name(), len(leaves), len(cx))
+						for _, l := range leaves {
+							fmt.Fprintf(os.Stderr, "   leaf %s %T tests=%d\n", l.String(), l, len(suffixTests(l, cx)))
+						}
 					}
-					for _, l := range condLeaves(condOfPhi(phi)) {
+					for _, l := range leaves {
 						for _, t := range suffixTests(l, cx) {
 							onOriginal := reqFieldSourcesCtx(t.arg, t.ctx, req)["URL.Path"] && !callsInDerivationCtx(t.arg, t.ctx)["path.Clean"]
 							if !onOriginal {
